@@ -2,9 +2,10 @@
 from rules.agree import r04_1, r04_2, r16_2, r16_3
 from rules.builder import r03_2, r01_1
 import rules.C13 as c13
+from rules.layout import r04_4, r04_5_writer, r04_5_reader, r04_5_iter, r04_5_dfa
 
 LEVEL = 'other'
-RULES = [('R04.2', r04_2), ('R04.1', r04_1), ('R13.5', c13.r13_5), ('R16.2', r16_2), ('R16.3', r16_3), ('R16.4', r03_2), ('R01.1', r01_1)]
+RULES = [('R04.2', r04_2), ('R04.1', r04_1), ('R13.5', c13.r13_5), ('R16.2', r16_2), ('R16.3', r16_3), ('R16.4', r03_2), ('R01.1', r01_1), ('R04.4', r04_4), ('R04.5w', r04_5_writer), ('R04.5r', r04_5_reader), ('R04.5i', r04_5_iter), ('R04.5d', r04_5_dfa)]
 EXPLANATION = """R04.2 predicate tables: with the layout relation of R16.2 they give 'dead and match states are special; a special state that is
 neither dead nor match is a start state'. R04.1 forwarding impls. R13.5 start_state fails exactly for the unsupported anchoring mode
 (NFAs never; DFA iff the selected start id is DEAD, which the builder stores into exactly the unsupported one). R16.2 the special-id
@@ -12,7 +13,8 @@ layout established by shuffle (max_match = next_avail-3 or the anchored start if
 max_special from one of them) is carried over field by field into the contiguous NFA and the DFA. R16.3 the dead state is absorbing by
 construction in all three representations (init_full_state(DEAD, DEAD); id maps default to DEAD; DFA table initialised to DEAD);
 R16.4 match states carry at least one pattern (set_matches asserts non-emptiness; State::write emits a match section iff
-old.is_match()). R16.5 Automaton is sealed (unsafe trait + private supertrait; five impls)."""
+old.is_match()). R04.4/R04.5 the contiguous encoding's reader and writer agree on kinds, header, sparse block and index expressions (a reader that
+disagrees with the writer walks out of the state), sparse_iter covers every byte. R16.5 Automaton is sealed (unsafe trait + private supertrait; five impls)."""
 NOT_DECIDED = """Validity of every reachable transition target, per-state pattern-id validity, and the documented walking recipe's equality with the built-in search (behavioural)."""
 CLAIM = """Static decision of the classification contract of the low-level API (predicate equivalence under all orderings, special-id provenance, absorbing dead state by construction, non-empty match lists, start_state error table, sealed trait)."""
 NOTE = """Trusted: rustc MIR construction, the fact extractor."""
